@@ -120,8 +120,20 @@ Fixpoint scale_nth (i : nat) (f : Q) (x : list oQ) : list oQ :=
   | v :: r, 0%nat => lift2 Qmult v (Some f) :: r
   | v :: r, S j => v :: scale_nth j f r
   end.
-Definition vprobe (x0 : list oQ) (_ : list (oQ * oQ)) : vstrat (T:=oQ) :=
-  vprobe_go (x0 :: flat_map (fun i => [scale_nth i 2 x0; scale_nth i (1 # 2) x0]) (seq 0 (length x0))) None.
+(** projection of one value into one interval: [np.minimum(np.maximum(v, lo), hi)] *)
+Definition oq_clip (b : oQ * oQ) (v : oQ) : oQ :=
+  match fst b, snd b, v with
+  | Some lo, Some hi, Some x =>
+      let y := if Qlt_bool x lo then lo else x in Some (if Qlt_bool hi y then hi else y)
+  | _, _, _ => None
+  end.
+(** the harness' positional stand-in for scipy.optimize.minimize: like a box-constrained optimiser it projects
+    every candidate (the start first) into the box it was handed *)
+Definition vprobe (x0 : list oQ) (bl : list (oQ * oQ)) : vstrat (T:=oQ) :=
+  vprobe_go (map (clip_box oq_clip bl)
+                 (x0 :: flat_map (fun i => [scale_nth i 2 x0; scale_nth i (1 # 2) x0]) (seq 0 (length x0)))) None.
+Definition qbounds (l : list (name * (Q * Q))) : list (name * (oQ * oQ)) :=
+  map (fun e => (fst e, (qv (fst (snd e)), qv (snd (snd e))))) l.
 
 Inductive fit_obs := FOk (fit_model : mstate (T:=oQ)) (best : list (name * Q)) (loss : Q) | FFailed | FRaised (e : err).
 Definition fit_obs_eqb (o : fit_obs) (r : fit_outcome (T:=oQ)) : bool :=
@@ -135,12 +147,26 @@ Record fit_case := mkFitCase {
   fc_kind : fit_kind; fc_loss : string; fc_settings : (list oQ -> list oQ -> oQ) -> settings (T:=oQ);
   fc_copy : option bool; fc_caller : mstate (T:=oQ); fc_p0 : list (name * Q);
   fc_via_scipy : bool;                             (* probe wrapped in LocalScipyMinimizer's packing *)
+  fc_bounds : list (name * (Q * Q));               (* the caller's bounds dictionary, in ITS order *)
   fc_caller_after : mstate (T:=oQ); fc_obs : fit_obs }.
 Definition fit_case_ok (c : fit_case) : bool :=
   match loss_by_name (fc_loss c) with
   | None => false
   | Some L =>
-      let mini := if fc_via_scipy c then local_scipy_minimizer QoOps gen_fit_facts vprobe [] else probe_minimiser in
+      let mini := if fc_via_scipy c then local_scipy_minimizer QoOps gen_fit_facts vprobe (qbounds (fc_bounds c)) else probe_minimiser in
       let '(after, out) := fit QoOps gen_fit_facts (fc_kind c) (fc_settings c L) (fc_copy c) (fc_caller c) (al (fc_p0 c)) mini in
       mstate_eqb after (fc_caller_after c) && fit_obs_eqb (fc_obs c) out
   end.
+
+(** *** what LocalScipyMinimizer hands to scipy.optimize.minimize: (names of p0, x0, bounds list) observed by a
+    recording stand-in; the default bounds are compared as the regenerated constants *)
+Record bnd_case := mkBndCase {
+  bc_p0 : list (name * Q); bc_bounds : list (name * (Q * Q));
+  bc_x0 : list Q; bc_list : list (option (Q * Q)) }.      (* None = the default interval *)
+Definition bnd_case_ok (c : bnd_case) : bool :=
+  let dflt := (Some (Qred (ff_bound_lo gen_fit_facts)), Some (Qred (ff_bound_hi gen_fit_facts))) in
+  let model := aligned_bounds QoOps gen_fit_facts (qbounds (bc_bounds c)) (keys (bc_p0 c)) in
+  list_eqb (fun (a : oQ * oQ) b => oq_eqb (fst a) (fst b) && oq_eqb (snd a) (snd b)) model
+           (map (fun o => match o with Some (lo, hi) => (qv lo, qv hi) | None => dflt end) (bc_list c))
+  && list_eqb Qeq_bool (map snd (bc_p0 c)) (bc_x0 c).
+
